@@ -86,12 +86,37 @@ def majority(ctx):
             if cp_ is not None and cp_[0] == "comp" and cp_[3] == (dets,):
                 if a[1] == "len" and cp_[1] == "list" or (a[1] == "sum" and cp_[2] == (const(1),)):
                     counts.append((a, cp_))
-    if len({x[0] for x in counts}) != 1:
-        raise AnalysisError("SimpleMajorityElection: vote count is not a filter-and-count over the detectors (unrecognised shape)")
-    n_atom, cp = counts[0]
-    member = atom(("iter", dets, [x for x in T.atoms_of(atom(cp), "iter")][0][2])) if list(T.atoms_of(atom(cp), "iter")) else None
-    ok = member is not None and len(cp[4]) == 1 and is_vote(cp[4][0], "drift", lambda m: m == member) and (cp[1] != "list" or cp[2][0] == member)
-    ctx.ob("FRM", site, "votes are the members with drift_state == 'drift'", ok, q.short(atom(cp), 120), tests[0] if tests else None)
+    loopcount = None
+    if not counts:
+        # ... or a counting loop: n = 0; for d in D: if vote(d): n += 1   (in __call__ or in a helper)
+        for a in T.atoms_of(cond, "loopvar"):
+            if not (isinstance(a[2], str) and a[2].startswith("$") and a[1] in tr.loops):
+                continue
+            L_ = tr.loops[a[1]]
+            name = a[2][1:]
+            if L_["iter"] != dets or L_["break"] or L_["pre"].locs.get(name) != const(0):
+                continue
+            ins = [e for e in tr.of("local") if e.name == name and any((p.cond.single_atom() or ("",))[:2] == ("inloop", a[1]) for p in e.pc)]
+            if len(ins) == 1 and ins[0].aug == ("Add", const(1)):
+                own = []
+                seen_loop = False
+                for p in ins[0].pc:
+                    if (p.cond.single_atom() or ("",))[:2] == ("inloop", a[1]):
+                        seen_loop = True
+                    elif seen_loop:
+                        own.append(p.cond)
+                loopcount = (a, ins[0], own, atom(("iter", dets, a[1])))
+    if loopcount is not None:
+        n_atom, inc, own, member = loopcount
+        ok = len(own) == 1 and is_vote(own[0], "drift", lambda m: m == member)
+        ctx.ob("FRM", site, "votes are the members with drift_state == 'drift'", ok, "; ".join(q.short(g, 80) for g in own), inc)
+    else:
+        if len({x[0] for x in counts}) != 1:
+            raise AnalysisError("SimpleMajorityElection: vote count is not a filter-and-count over the detectors (unrecognised shape)")
+        n_atom, cp = counts[0]
+        member = atom(("iter", dets, [x for x in T.atoms_of(atom(cp), "iter")][0][2])) if list(T.atoms_of(atom(cp), "iter")) else None
+        ok = member is not None and len(cp[4]) == 1 and is_vote(cp[4][0], "drift", lambda m: m == member) and (cp[1] != "list" or cp[2][0] == member)
+        ctx.ob("FRM", site, "votes are the members with drift_state == 'drift'", ok, q.short(atom(cp), 120), tests[0] if tests else None)
     L_atom = ("call", "len", (dets,), ())
     others = [a for a in cond.atoms() if a not in (n_atom, L_atom)]
     bad = []
